@@ -271,3 +271,103 @@ Section Prefix.
       + apply W.
   Qed.
 End Prefix.
+
+(* ---------------------------------------------------------------------- *)
+(* Prefix lemma for the statement loop (one unfolding step, given the lemma for getStmt) *)
+Arguments redirs : simpl never.
+Arguments call_loop : simpl never.
+Arguments word_iter : simpl never.
+Arguments pats_loop : simpl never.
+Arguments bind : simpl never.
+Arguments perr : simpl never.
+Arguments lerr : simpl never.
+
+Section Prefix2.
+  Variable r : list token.
+  Notation pre_l := (pre_g end_l (lock_l r)).
+  Notation pre_lb := (pre_g end_lb (lock_lb r)).
+  Notation pre_o ts := (pre_g (end_o ts) (lock_o r)).
+  Notation pre_ob ts := (pre_g (end_ob ts) (lock_ob r)).
+
+  Lemma pre_perr : forall A e l o x c p pre, pre_g e l (@perr A o x c p) pre.
+  Proof. intros. unfold perr. exact I. Qed.
+  Lemma pre_lerr : forall A e l c p pre, pre_g e l (@lerr A c p) pre.
+  Proof. intros. unfold lerr. exact I. Qed.
+  Lemma eof_perr : forall A e o c p, eof_ok e (@perr A (S o) [] c p).
+  Proof. intros. unfold perr. reflexivity. Qed.
+
+  (* stmts *)
+  Definition stmts_tail px f o q stops (ge any nl : bool) (ts1 : list token) : pres (list token * bool) :=
+    match (match ts1 with
+           | t :: _ =>
+               if is_litword t then
+                 if in_stops stops t then Some (POk (ts1, any))
+                 else match t with TRbrace => Some (perr o ts1 ERbraceClose (length ts1)) | _ => None end
+               else match t with
+                    | TRparen => if is_quote_sub q then Some (POk (ts1, any)) else None
+                    | TDSemi => if is_quote_case q then Some (POk (ts1, any)) else Some (perr o ts1 EDSemiCase (length ts1))
+                    | _ => None
+                    end
+           | [] => None
+           end) with
+    | Some y => y
+    | None =>
+        if negb nl && negb ge then perr o ts1 ESep (length ts1)
+        else match ts1 with
+             | [] => POk ([], any)
+             | t :: _ => bind (get_stmt px f (S o) q true false ts1) (fun v =>
+                         match v with
+                         | None => perr o ts1 (invalid_start_code t) (length ts1)
+                         | Some (r0, semi) => stmts px f o q stops semi true r0
+                         end)
+             end
+    end.
+
+  Lemma stmts_S : forall px f o q stops ge any t ts,
+    stmts px (S f) o q stops ge any (t :: ts) =
+    stmts_tail px f o q stops ge any (match t with TNewl => true | _ => false end) (got_newl (t :: ts)).
+  Proof. intros. destruct t; reflexivity. Qed.
+
+  Lemma pre_stmts_tail : forall px f,
+    (forall o q re bc ts, pre_ob ts (get_stmt px f (S o) q re bc (ts ++ r)) (get_stmt px f (S o) q re bc ts)) ->
+    (forall o q stops ge any ts, pre_lb (stmts px f o q stops ge any (ts ++ r)) (stmts px f o q stops ge any ts)) ->
+    forall o q stops ge any nl t1 x,
+      pre_lb (stmts_tail px f o q stops ge any nl ((t1 :: x) ++ r)) (stmts_tail px f o q stops ge any nl (t1 :: x)).
+  Proof.
+    intros px f Iget Istmts o q stops ge any nl t1 x.
+    unfold stmts_tail. simpl.
+    assert (LK : pre_lb (POk (t1 :: x ++ r, any)) (POk (t1 :: x, any))).
+    { left. eexists. split; [reflexivity|]. repeat split. discriminate. }
+    set (G1 := if negb nl && negb ge then _ else _).
+    set (G2 := if negb nl && negb ge then _ else _).
+    assert (G : pre_lb G1 G2).
+    { subst G1 G2. destruct (negb nl && negb ge); [apply pre_perr|].
+      eapply pre_g_bind; [apply (Iget o q true false (t1 :: x))| |].
+      - intros v v' L. destruct v as [[a b]|], v' as [[a' b']|]; simpl in L; try contradiction.
+        + destruct L as (Hne & E1 & E2). simpl in *. subst. apply Istmts.
+        + apply pre_perr.
+      - intros [[a b]|] E; simpl in E; [subst | discriminate].
+        apply (proj1 (eof_all px f)). }
+    clearbody G1 G2.
+    destruct (is_litword t1).
+    - destruct (in_stops stops t1); [exact LK|]. destruct t1; try exact G; apply pre_perr.
+    - destruct t1; try exact G.
+      + destruct (is_quote_sub q); [exact LK | exact G].
+      + destruct (is_quote_case q); [exact LK | apply pre_perr].
+  Qed.
+
+  Lemma pre_stmts_step : forall px f,
+    (forall o q re bc ts, pre_ob ts (get_stmt px f (S o) q re bc (ts ++ r)) (get_stmt px f (S o) q re bc ts)) ->
+    (forall o q stops ge any ts, pre_lb (stmts px f o q stops ge any (ts ++ r)) (stmts px f o q stops ge any ts)) ->
+    forall o q stops ge any ts, pre_lb (stmts px (S f) o q stops ge any (ts ++ r)) (stmts px (S f) o q stops ge any ts).
+  Proof.
+    intros px f Iget Istmts o q stops ge any ts.
+    destruct ts as [|t ts]; [apply pre_g_eof; reflexivity|].
+    simpl app. rewrite !stmts_S.
+    destruct (token_eq_dec t TNewl) as [->|N].
+    - simpl got_newl. destruct ts as [|t2 ts]; [apply pre_g_eof; reflexivity|].
+      apply (pre_stmts_tail px f Iget Istmts).
+    - assert (E1 : forall y, got_newl (t :: y) = t :: y) by (intro y; destruct t; try reflexivity; congruence).
+      rewrite !E1. apply (pre_stmts_tail px f Iget Istmts o q stops ge any _ t ts).
+  Qed.
+End Prefix2.
